@@ -10,7 +10,7 @@ from ..models import ModelEval, PyObj, Marker, Raised
 from ..peval import Model, Unsupported, ProgramRaised
 from ..poly import Poly, Rat, Fn
 from ..source import AnalysisError
-from .array_folds import DT, issubdtype
+from .array_folds import DT, issubdtype, can_cast
 from .core_models import ARRAY_Q, VECTOR_Q
 
 ERR = (Unsupported, AnalysisError)
@@ -367,9 +367,13 @@ class UFunc(Model):
             raise Unsupported("np.%s is not in the model" % name)
         rshape = bshape(*[_shape_of(a) for a in args])
         out = kwargs.get("out")
+        if name in NUMERIC and dtype == "float64" and name not in ("divide", "true_divide") and all(_is_int(a) for a in args):
+            dtype = "int64"            # integers stay integers under + - * and negation
         if out:
             if len(out) != 1 or not isinstance(out[0], RawV):
                 raise Raised("TypeError", None, "'out' must be a tuple of arrays")
+            if dtype == "float64" and out[0].dtype.kind in ("i", "u"):
+                raise Raised("UFuncTypeError", None, "Cannot cast ufunc '%s' output from dtype('float64') to dtype('%s') with casting rule 'same_kind'" % (name, out[0].dtype.name))
             if bshape(rshape, tuple(out[0].shape)) != tuple(out[0].shape):
                 raise Raised("ValueError", None, "non-broadcastable output operand with shape %s doesn't match the broadcast shape %s" % (out[0].shape, rshape))
             out[0].r = res          # numpy writes into the buffer it is given (which keeps its own dtype)
@@ -461,6 +465,7 @@ def stack_hooks(tree):
     for name in ("cumsum", "sum"):
         hk["ext"]["numpy." + name] = AFunc(name, tree, hk)
     hk["ext"]["numpy.issubdtype"] = issubdtype
+    hk["ext"]["numpy.can_cast"] = can_cast
 
     def _const(value):
         def make(shape, dtype=None, **k):
@@ -509,12 +514,12 @@ def check_inplace_stack(run, tree):
     A, B = rat(Poly.sym("A")), rat(Poly.sym("B"))
     km, kcm, ks = (rat(Poly.sym("k_" + x)) for x in ("m", "cm", "s"))
     OPS = (("+=", "__iadd__", "cm", lambda pa, pb: pa + pb), ("-=", "__isub__", "cm", lambda pa, pb: pa - pb), ("*=", "__imul__", "s", lambda pa, pb: pa * pb), ("/=", "__itruediv__", "s", lambda pa, pb: pa / pb))
-    for shape, sl in (((3,), "1-d"), ((), "0-d (scalar)"), ((0,), "empty"), ((2, 3), "2-d"), ((3,), "a strided view (x[::2])")):
+    for shape, sl in (((3,), "1-d"), ((), "0-d (scalar)"), ((0,), "empty"), ((2, 3), "2-d"), ((3,), "a strided view (x[::2])"), ((3,), "float32 data (b is float64)")):
         for sym, dunder, ub, want in OPS:
             construct = "core/array.py::Array[a [m] %s b [%s]; a is %s]" % (sym, ub, sl)
             try:
                 hk = stack_hooks(tree)
-                a, b = arr(tree, hk, "A", "m", shape=shape, contiguous="strided" not in sl), arr(tree, hk, "B", ub, shape=shape)
+                a, b = arr(tree, hk, "A", "m", shape=shape, contiguous="strided" not in sl, dtype="float32" if "float32" in sl else "float64"), arr(tree, hk, "B", ub, shape=shape)
                 buf, pa, pb = a._attrs["_array"], phys(a), phys(b)
                 try:
                     r = binop(tree, hk, a, dunder, b)
@@ -1632,6 +1637,41 @@ def check_vector_lifting_stack(run, tree):
         v = a._attrs.get("_array")
         return "%r [%r]" % (v.r if isinstance(v, RawV) else v, a._attrs.get("_unit"))
 
+    INPLACE = (("+=", "__iadd__", "float64"), ("/=", "__itruediv__", "float64"), ("+=", "__iadd__", "int64"), ("*=", "__imul__", "int64"), ("/=", "__itruediv__", "int64"))
+    for sym, dunder, dt in INPLACE:
+        # the augmented assignment as python runs it (x.__iop__(y), else x op y): what the NAME holds afterwards
+        import ast as _ast
+        opnode = {"+=": _ast.Add, "*=": _ast.Mult, "/=": _ast.Div}[sym]()
+        construct = "core/vector.py::Vector[v [m, %s data] %s y agrees with the components]" % (dt, sym)
+        problems, unres = [], None
+        for label, mk in [r for r in RHS if not r[0].startswith("python 0")]:
+            try:
+                res = []
+                for whole in (True, False):
+                    hk = stack_hooks(tree)
+                    v = vec(tree, hk, "V", "m", dtypes={c: dt for c in "xyz"})
+                    y = mk(hk)
+                    ev = ModelEval(tree, vfi, {}, hk)
+                    if whole:
+                        o = outcome(lambda: ev.aug_op(None, opnode, v, y))
+                        res.append(o if o[0] == "raises" else ("value", {c: (a._attrs["_array"].r, a._attrs["_array"].dtype.kind, a._attrs.get("_unit")) for c, a in comps_of(tree, hk, o[1]).items()})
+                                   if isinstance(o[1], PyObj) and o[1]._cls.qual == VECTOR_Q else ("value", repr(o[1])))
+                    else:
+                        parts = {}
+                        for c, a in comps_of(tree, hk, v).items():
+                            o = outcome(lambda a=a: ev.aug_op(None, opnode, a, y))
+                            parts[c] = o if o[0] == "raises" else (o[1]._attrs["_array"].r, o[1]._attrs["_array"].dtype.kind, o[1]._attrs.get("_unit"))
+                        first = next(iter(parts.values()))
+                        res.append(first if isinstance(first, tuple) and first and first[0] == "raises" and all(p == first for p in parts.values()) else ("value", parts))
+                if res[0] != res[1]:
+                    problems.append("y = %s: the Vector gives %r, its components give %r" % (label, res[0], res[1]))
+            except ERR as e:
+                unres = "y = %s: %s" % (label, e)
+        if unres and not problems:
+            run.unresolved(construct, vfi.where(), "cannot fold: %s" % unres)
+        else:
+            run.ob(construct, not problems, vfi.where(), "; ".join(problems[:2]) or "v %s y leaves v holding what its components hold after c %s y (or refuses alike)" % (sym, sym),
+                   "v %s y on integer data: the components refuse (or are rebound to the quotient) but the Vector silently stays unchanged" % sym)
     for sym, dunder in OPS:
         if sym == "/":
             rhs_list = [r for r in RHS if not r[0].startswith("python 0")]
